@@ -150,7 +150,8 @@ var filterForms = []string{
 	"%s='1.1.1.1'", "%s!='a'", "%s<>'a b'", "%s in ('a')", "%s in ('a','/b',c)", "%s not in ('a','b')",
 	"%s like 'a%%'", "%s not like '%%a'", "%s=~'a.*'", "%s!~'/a[0-9]+/'",
 }
-var filterFormsFew = []int{0, 5, 6, 9}
+var filterFormsFew = []int{0, 5, 6, 9}          // 3 filters, quick
+var filterFormsMid = []int{0, 1, 4, 5, 6, 7, 9} // 3 filters, thorough
 
 type timeForm struct {
 	s                string
@@ -171,7 +172,7 @@ var timeForms = []timeForm{
 	{"time>now()+1h", false, false},                                           // start > end: rejected
 	{"time=now()", false, false},                                              // sets neither bound
 	{"time>='2019-04-10 10:00:00' and time<='2019-04-10 00:00:00'", true, true},
-	{"time>now()-1d and time<'2999-01-01 00:00:00'", false, true},
+	{"time>now()-1d and time<'2030-01-01 00:00:00'", false, true},
 }
 
 const absRange = "time>='2019-04-10 00:00:00' and time<='2019-04-10 10:00:00'"
@@ -258,15 +259,18 @@ func forEachSQL(thorough bool, bounds map[string]interface{}, emit emitFn) {
 		condD = 4
 		nTime = len(timeForms)
 	}
-	bounds["where"] = fmt.Sprintf("B := filter | (B) | B and B | B or B, <=3 filters, nesting<=%d; 10 filter forms (all for 1-2 filters, %d for 3 in quick); x %d time-range forms x before/after", condD, len(filterFormsFew), nTime)
+	bounds["where"] = fmt.Sprintf("B := filter | (B) | B and B | B or B, <=3 filters, nesting<=%d; 10 filter forms (all for 1-2 filters, %d of them for 3 filters); x %d time-range forms (3 filters in quick: 4) x before/after", condD, map[bool]int{false: len(filterFormsFew), true: len(filterFormsMid)}[thorough], nTime)
 	var condSample []string // a small representative set reused by the cross family
 	for n := 1; n <= 3; n++ {
 		forms := make([]int, 0, 10)
-		if n < 3 || thorough {
+		switch {
+		case n < 3:
 			for i := range filterForms {
 				forms = append(forms, i)
 			}
-		} else {
+		case thorough:
+			forms = filterFormsMid
+		default:
 			forms = filterFormsFew
 		}
 		leafSets := make([][]string, n)
